@@ -85,10 +85,22 @@ func intsJSON(v []int) Raw {
 		if i > 0 {
 			sb.WriteByte(',')
 		}
-		sb.WriteString(strconv.Itoa(x))
+		sb.WriteString(strconv.Itoa(tlcInt(x)))
 	}
 	sb.WriteByte(']')
 	return Raw(sb.String())
+}
+
+// tlcInt: TLC integers are 32-bit and the JSON reader wraps larger numbers silently (2^32 - 10 would read as -10),
+// so every number written to a trace saturates at +-(2^31 - 1) instead; the specifications never expect those two values.
+func tlcInt(x int) int {
+	if x > 2147483647 {
+		return 2147483647
+	}
+	if x < -2147483647 {
+		return -2147483647
+	}
+	return x
 }
 
 func bytesJSON(b []byte) Raw {
